@@ -88,6 +88,11 @@ def cases(tier, seed):
             if d <= 5:
                 for p in pat.FULL(d):
                     add('unary', cfg, p)
+    # configuration fuzz over all construction axes
+    for i in range(150 if tier == 'quick' else 1500):
+        cfg, dd = pat.random_cfg(rng)
+        cfg.pop('wrapper', None)
+        add(rng.choice(['addsub', 'addsub', 'unary', 'morphism']), cfg, pat.random_pattern(rng, dd), pat.random_pattern(rng, dd))
     return out
 
 
